@@ -271,10 +271,10 @@ def check_problem(ctx, rep, spec, enc, i_problem):
 
 
 def run(ctx, rep):
-    n = ctx.pick(40, 1500)
+    n = ctx.pick(72, 1500)
     i = 0
     for i in range(n):
-        spec = proc.gen_problem(ctx.rng)
+        spec = proc.gen_problem(ctx.rng, streams=('tame', 'tree', 'cons', 'cons', 'dv', 'conn', 'conn-dv'))
         if not ctx.mine(i):
             continue
         for enc in ('COMPLETE', 'FAST'):
